@@ -105,7 +105,14 @@ def run(ctx):
                 ctx.traces += 1
                 if 'data' in case['reqs']:
                     ctx.nontrivial += 1
-                if (reqs, status, fin) != (case['reqs'], case['status'], case['file']):
+                stable = len(set(case['md5s'])) == 1
+                same = (reqs, status, fin) == (case['reqs'], case['status'], case['file'])
+                if not same and stable and (status, fin, reqs.count('data')) == (
+                        case['status'], case['file'], case['reqs'].count('data')):
+                    # same outcome, same number of downloads, another number of checksum requests
+                    ctx.note('checksum-requests', 'requests %r, transcription %r' % (reqs, case['reqs']))
+                    same = True
+                if not same:
                     ctx.violation('replay', 'download_file(prior=%s, script=%r, md5=%r): requests %r, '
                                   '%s, file %s; specification: %r, %s, %s' % (
                                       case['prior'], case['script'], case['md5s'], reqs, status, fin,
@@ -136,6 +143,9 @@ def run(ctx):
                              status=status, file=fin))
     for rid, clause in ctx.validate('Trace_Download', 'Trace_Download.cfg', recs):
         r = recs[rid - 1]
+        if clause == 'reqs' and r['md5s'][0] == r['md5s'][1] == r['md5s'][2]:
+            ctx.note('checksum-requests', 'recorded request sequence differs from the transcription')
+            continue
         ctx.violation('trace', 'recorded download rejected by the specification: clause %s' % clause,
                       dict(record=r, clause=clause))
     ctx.sample(recs[0])
